@@ -1,6 +1,7 @@
 """C01 - safe loading is confined to plain data (confinement argument over the program text)."""
 import sys
 
+from sa import rules_r6 as R6
 from sa import report, effects as E, partial as P, rules_registry as RR, rules_confine as RC
 from sa import rules_repr as RREPR
 
@@ -23,31 +24,34 @@ def run(ctx, repo):
     ctx.assume('A-NODE: node.value is a str for scalar nodes and a list of nodes / node pairs for collection nodes '
                '(both composers construct nodes only that way)')
     ctx.assume('user code does not register constructors on the shipped safe classes (excluded by the property statement)')
-    RR.r_table_closed(ctx, repo, RR.table_groups_safe())
-    RC.r_fallback_raises(ctx, repo, RR.SAFE_LOADERS)
-    RR.r_registry_decl(ctx, repo)
-    RR.r_cow(ctx, repo, only=['yaml_constructors', 'yaml_multi_constructors'])
-    RR.r_sole_writer(ctx, repo)
-    E.r_global_readonly(ctx, repo)
-    RR.r_fanout(ctx, repo)
-    RR.r_dispatch_self(ctx, repo)
-    RC.r_loader_composition(ctx, repo, {
+    ctx.call(RR.r_table_closed, repo, RR.table_groups_safe())
+    ctx.call(RC.r_fallback_raises, repo, RR.SAFE_LOADERS)
+    ctx.call(RR.r_registry_decl, repo)
+    ctx.call(RR.r_cow, repo, only=['yaml_constructors', 'yaml_multi_constructors'])
+    ctx.call(RR.r_sole_writer, repo)
+    ctx.call(E.r_global_readonly, repo)
+    ctx.call(RR.r_fanout, repo)
+    ctx.call(RR.r_dispatch_self, repo)
+    ctx.call(RC.r_loader_composition, repo, {
         'loader.SafeLoader': 'constructor.SafeConstructor', 'cyaml.CSafeLoader': 'constructor.SafeConstructor',
         'loader.BaseLoader': 'constructor.BaseConstructor', 'cyaml.CBaseLoader': 'constructor.BaseConstructor'})
-    RC.r_api_binding(ctx, repo, {'safe_load': 'loader.SafeLoader', 'safe_load_all': 'loader.SafeLoader'})
-    RC.r_positive_control(ctx, repo)
-    RC.r_no_sink(ctx, repo, UNIVERSES, label='safe')
-    RC.r_return_universe(ctx, repo, UNIVERSES, RC.SAFE_TAGS, label='safe')
-    RC.r_frontend_no_sink(ctx, repo, UNIVERSES)
-    RC.r_unsafe_only_in_unsafe(ctx, repo, UNIVERSES)
+    ctx.call(RC.r_api_binding, repo, {'safe_load': 'loader.SafeLoader', 'safe_load_all': 'loader.SafeLoader'})
+    ctx.call(RC.r_positive_control, repo)
+    ctx.call(RC.r_no_sink, repo, UNIVERSES, label='safe')
+    ctx.call(RC.r_return_universe, repo, UNIVERSES, RC.SAFE_TAGS, label='safe')
+    ctx.call(RC.r_frontend_no_sink, repo, UNIVERSES)
+    ctx.call(RC.r_unsafe_only_in_unsafe, repo, UNIVERSES)
     # clause (f): "or raises a YAML error" for malformed scalars under explicit core tags
     reach = set()
     for q in UNIVERSES:
         reach |= set(RC.build_universe(repo, q).summaries)
-    P.r_partial_guarded(ctx, repo, ['constructor'], rule_id='R-YAML-ERROR-ONLY', skip=lambda f: f not in reach)
+    ctx.call(P.r_partial_guarded, repo, ['constructor'], rule_id='R-YAML-ERROR-ONLY', skip=lambda f: f not in reach)
 
-    RREPR.r_merge_shape(ctx, repo)
-    RREPR.r_hashable_guard(ctx, repo)
+    ctx.call(RREPR.r_merge_shape, repo)
+    ctx.call(RREPR.r_hashable_guard, repo)
+    ctx.call(R6.r_kind_exit, repo)
+    ctx.call(R6.r_generator_drained, repo)
+
 
 if __name__ == '__main__':
     sys.exit(report.main('C01', 'proof', run))
